@@ -93,7 +93,14 @@ instance : FloatOps Float where
   floor := Float.floor
   ceil := Float.ceil
   round := Float.round
-  ofDec m k := Float.ofBits (ratToBits m (10 ^ k))
+  ofDec m e :=
+    -- clamp absurd exponents before building 10^|e| (the value is 0 or overflows anyway)
+    let d : Int := (toString m).length
+    if m = 0 then Float.ofBits 0
+    else if e > 400 then Float.ofBits 0x7ff0000000000000
+    else if e < -(d + 400) then Float.ofBits 0
+    else if e ≥ 0 then Float.ofBits (ratToBits (m * 10 ^ e.toNat) 1)
+    else Float.ofBits (ratToBits m (10 ^ (-e).toNat))
   pi := Float.ofBits 0x400921fb54442d18
   e := Float.ofBits 0x4005bf0a8b145769
 
